@@ -6,7 +6,7 @@ using namespace vr;
 extern "C" void harness_c11_subs()
 {
     Gen g;
-    g.leaves = {L_X, L_Y, L_P, L_NUM, L_SYMNUM};
+    g.leaves = {L_X, L_Y, L_P, L_NUM};
     g.nums = {{2, 1}, {-1, 2}, {3, 1}};
     g.unary = {O_NEG, O_POWI, O_POWQ, O_SIN, O_COS, O_EXP, O_LOG, O_ATAN};
     g.binary = {O_ADD, O_SUB, O_MUL, O_DIV};
